@@ -1327,6 +1327,7 @@ package rtcp
 
 //@ func (c *CompoundPacket) Unmarshal(rawData []byte) (err error)
 //@   safety[C01]
+//@   recv any
 //@   modifies *c
 //@   nocap
 //@   mathint
